@@ -478,6 +478,14 @@ func (dbPT *DBPTInfo) OpenIndexes(opId uint64, rp string, engineType config.Engi
 	return err
 }
 
+// FlushShardMemTable writes the rows sh holds in memory to files, which retires their write-ahead log
+// (as DropMeasurement does before it deletes the files of a measurement).
+func FlushShardMemTable(sh Shard) {
+	if s, ok := sh.(*shard); ok {
+		s.ForceFlush()
+	}
+}
+
 func SetDelMergeSetForEachMergeSet(dbPT *DBPTInfo, rp string) error {
 	err := errors.New("delMergeSet must be *tsi.MergeSetIndex")
 	if delMergeSet, ok := dbPT.GetDelIndexBuilderByRp(rp).GetPrimaryIndex().(*tsi.MergeSetIndex); ok {
